@@ -730,3 +730,11 @@ def c02_12(ctx):
                 if isinstance(n, ast.BinOp) and not isinstance(n.op, ast.Add):
                     ctx.fail(fj, em[0], 'the columns of an empty join result are `%s`, expected the union cols + lkeys + rkeys + jkeys' % U(e.args[1]))
                     break
+
+
+@obligation('C02.13', 'MATCH + call graph (shared with C07.9)', 'length rank in the comparison core of cmp; _loop:len0',
+            'the merge walks two lists sorted with sort() (native order when it can) using cmp: both must rank string keys alike, so the length rank of cmp has to treat a string as a scalar (len0), or equal keys are passed by and rows are lost',
+            axioms=('A1',))
+def c02_13(ctx):
+    from . import C07 as _c07
+    _c07.c07_9(ctx)
